@@ -48,6 +48,10 @@ func tokenPrecendence(t ast.Token) precedence {
 
 // Parse returns the ActionList and any error that prevents the ActionList from being parsed
 func (p *Parser) Parse() (*gcs.ActionList, error) {
+	// whatever way parsing ends, let the lexing goroutine run to completion: on a parse error
+	// it would otherwise stay blocked forever on its unbuffered channel
+	defer p.lex.drain()
+
 	var err error
 	for state := parseRows; state != nil; {
 		state, err = state(p)
@@ -614,7 +618,9 @@ func (p *Parser) parseExpr(pre precedence) (ast.Expr, error) {
 	t := p.next()
 	prefix := p.prefixParseFns[t.Typ]
 	if prefix == nil {
-		return nil, nil
+		// no expression can start with this token (a missing operand / value)
+		p.backup()
+		return nil, fmt.Errorf("ln%v: expecting an expression, got %v", t.Line, t.Val)
 	}
 	p.backup()
 	leftExp, err := prefix()
@@ -745,7 +751,7 @@ func (p *Parser) parseParen() (ast.Expr, error) {
 	}
 
 	if n := p.peek(); n.Typ != ast.ItemRightParen {
-		return nil, nil
+		return nil, fmt.Errorf("ln%v: expecting ) to close the parenthesis, got %v", n.Line, n.Val)
 	}
 	p.next() // consume the right paren
 
